@@ -373,6 +373,26 @@ def run_life(jobs, actions, corrupt=(), holds=None, deadline=25.0, preamble=()):
             time.sleep(0.001)
         time.sleep(0.03)
 
+    class Rec:
+        """A PrinterEventHandler that logs the callbacks it receives, under the hub's lock (CallbacksTrace.tla)."""
+
+        def _log(self, name, text="", flag=False, idx=-1):
+            hub.log({"k": "cb", "name": name, "text": list(str(text).encode("utf-8", "replace")), "flag": bool(flag), "idx": int(idx)})
+
+        def on_init(self): pass
+        def on_connect(self): pass
+        def on_disconnect(self): pass
+        def on_online(self): pass
+        def on_error(self, error): pass
+        def on_temp(self, line): pass
+        def on_layerchange(self, layer): pass
+        def on_send(self, command, gline): self._log("send", command)
+        def on_recv(self, line): self._log("recv", line.rstrip("\n"))
+        def on_start(self, resume): self._log("start", flag=resume)
+        def on_end(self): self._log("end")
+        def on_preprintsend(self, gline, index, mainqueue): self._log("preprint", gline.raw, idx=index)
+        def on_printsend(self, gline): self._log("printsend", gline.raw)
+
     with patched(hub):
         p = printcore()
         p.loud = False
@@ -388,6 +408,7 @@ def run_life(jobs, actions, corrupt=(), holds=None, deadline=25.0, preamble=()):
             time.sleep(0.05)
             with hub.lock:
                 hub.released.clear()
+            p.addEventHandler(Rec())
             for cmd in preamble:                      # e.g. G91: sent (and analysed) before the first job; not part of the trace
                 p.send_now(cmd)
             if preamble:
@@ -472,16 +493,20 @@ def run_life(jobs, actions, corrupt=(), holds=None, deadline=25.0, preamble=()):
     if preamble:
         cut = [i for i, e in enumerate(evs) if e["k"] == "pre_end"]
         evs = evs[cut[0] + 1:] if cut else evs
-    ev = [e for e in evs if e["k"] in ("tx", "rel", "end", "pause", "resume", "cancel", "start")]
-    for e in ev:
+    allev = [e for e in evs if e["k"] in ("tx", "rel", "end", "pause", "resume", "cancel", "start", "cb")]
+    for e in allev:
         e.setdefault("text", [])
         e.setdefault("bad", False)
         e.setdefault("joined", False)
         e.setdefault("job", 0)
+        e.setdefault("name", "")
+        e.setdefault("flag", False)
+        e.setdefault("idx", -1)
         e.pop("i", None)
+    ev = [e for e in allev if e["k"] != "cb"]
     return {"meta": {"corrupt": sorted(corrupt), "holds": {str(k): v for k, v in (holds or {}).items()}, "actions": actions,
                      "unserved": len(pending)},
-            "jobs": jobs, "ev": ev}
+            "jobs": jobs, "ev": ev, "evcb": allev}
 
 
 # ----------------------------------------------------------------------------
